@@ -10,14 +10,14 @@ for arg in sys.argv[1:]:
         src = "%s/%s.out/change%d" % (os.environ.get("WT", "/tmp/wt3"), pid, k)
         if not os.path.exists(src + "/patch.diff"):
             continue
-        sid = explicit.get(str(k), "S-%s-%d" % (pid, k + 2))
+        sid = explicit.get(str(k), "S-%s-%d" % (pid, k + int(os.environ.get("OFFSET", "2"))))
         dst = "/verif/seeded/%s" % sid
         if os.path.isdir(dst):
             shutil.rmtree(dst)
         os.makedirs(dst)
         shutil.copy(src + "/patch.diff", dst + "/patch.diff")
         shutil.copy(src + "/demo_test.go", dst + "/demo_test.go")
-        meta = {"id": sid, "property": pid, "round": 3,
+        meta = {"id": sid, "property": pid, "round": int(os.environ.get("ROUND", "3")),
                 "origin": "fresh sub-agent given only the property text and a scratch worktree",
                 "notes": open(src + "/notes.md").read().strip(),
                 "confirmed": {"repo_head": head,
